@@ -381,6 +381,51 @@ def generate_C08(rng, tier):
                 yield "bm_ops %s %s" % (",".join(["D0"] + tail + (["t0"] if tn == 0 else ["e0"])), hx)
             else:
                 yield "bm_ops %s %s" % (",".join(["D0", "e0", "t0"] + tail + _final()), hx)
+    # containers emptied completely (front to back, back to front, both ends), then
+    # serialised and probed at the old boundaries
+    def _probe(i, vals):
+        o = ["s%d" % i, "e%d" % i]
+        for v in vals:
+            if 0 <= v <= UMAX:
+                o += ["q%d.%d" % (i, v), "r%d.%d" % (i, v), "a%d.%d" % (i, v), "q%d.%d" % (i, v), "r%d.%d" % (i, v)]
+        return o + ["s%d" % i, "e%d" % i, "t%d" % i]
+    for (lo, hi) in [(100, 4300), (0, 4097), (61000, 65535)]:
+        bnd = [lo, lo - 1, lo + 1, hi - 1, hi, hi - 2]
+        yield "bm_ops " + ",".join(["A0.%d.%d" % (lo, hi), "R0.%d.%d" % (lo, hi)] + _probe(0, bnd))
+        yield "bm_ops " + ",".join(["A0.%d.%d" % (lo, hi)] + ["r0.%d" % v for v in range(hi - 1, lo - 1, -1)] + _probe(0, bnd))
+        mid = (lo + hi) // 2
+        both = []
+        a, b = lo, hi - 1
+        while a <= b:
+            both.append("r0.%d" % a)
+            if b != a:
+                both.append("r0.%d" % b)
+            a += 1
+            b -= 1
+        yield "bm_ops " + ",".join(["A0.%d.%d" % (lo, hi)] + both + _probe(0, bnd + [mid, mid + 1]))
+        yield "bm_ops " + ",".join(["A0.%d.%d" % (lo, hi), "R0.%d.%d" % (lo, mid)] +
+                                   ["r0.%d" % v for v in range(hi - 1, mid - 1, -1)] + _probe(0, bnd + [mid, mid - 1]))
+        if quick:
+            break
+    for kind in ("array", "array4095", "bits", "bits_small"):
+        fill = _fill(0, kind, rng)
+        yield "bm_ops " + ",".join(fill + ["R0.0.65535", "r0.65535"] + _probe(0, [0, 1, 100, 4094, 4095, 65535]))
+        # element by element, descending, of whatever is in there (values are known to the generator)
+        S = set()
+        for op, f in parse_ops(",".join(fill)):
+            if op == "A":
+                S.update(range(f[1], f[2]))
+            elif op == "R":
+                S.difference_update(range(f[1], f[2]))
+            elif op == "a":
+                S.add(f[1])
+            elif op == "m":
+                S.update(f[1:])
+            elif op == "z":
+                S = set()
+        srt = sorted(S)
+        yield "bm_ops " + ",".join(fill + ["r0.%d" % v for v in reversed(srt)] +
+                                   _probe(0, ([srt[0], srt[0] - 1, srt[-1], srt[-1] + 1] if srt else [0])))
     # walks across 4096 (array <-> bitmap) by single adds and removes
     for rep in range(6 if quick else 60):
         lo = rng.choice([0, 1, 7, 100])
@@ -634,9 +679,46 @@ def classify(case, m):
     return "trivial"
 
 
+def _continuations(case):
+    """histories that extend `case` (or a prefix of it) by a serialise/deserialise
+    round trip and by Contains/Remove/Add of every value near the history's own
+    arguments, with full export / iteration afterwards: drives a divergence of the
+    internal state to an observably wrong answer"""
+    t = case.split()
+    if len(t) < 2:
+        return
+    toks = [x for x in t[1].split(",") if x]
+    ops = parse_ops(t[1])
+    vals = set([0, 1, 65535, 65534])
+    idx = set()
+    for op, f in ops:
+        if not f:
+            continue
+        nidx = 3 if op in "noxd" else 2 if op == "k" else 1
+        for x in f[:nidx]:
+            idx.add(x & 3)
+        vs = f[nidx:]
+        if len(vs) > 8:
+            vs = vs[:4] + vs[-4:]
+        for v in vs:
+            for d in (-2, -1, 0, 1, 2):
+                if 0 <= v + d <= UMAX:
+                    vals.add(v + d)
+    vals = sorted(vals)[:80]
+    n = len(toks)
+    cuts = range(1, n + 1) if n <= 60 else sorted(set(list(range(1, n + 1, max(1, n // 20))) + [n]))
+    for c in cuts:
+        for i in sorted(idx):
+            tail = ["e%d" % i, "s%d" % i, "e%d" % i]
+            for v in vals:
+                tail += ["q%d.%d" % (i, v), "r%d.%d" % (i, v), "q%d.%d" % (i, v), "a%d.%d" % (i, v), "r%d.%d" % (i, v)]
+            tail += ["e%d" % i, "t%d" % i, "s%d" % i, "e%d" % i]
+            yield " ".join([t[0], ",".join(toks[:c] + tail)] + t[2:])
+
+
 def search(rng, divergent_cases):
     """every prefix of the divergent histories (shortest failing history first),
-    then a fresh batch"""
+    continuations of them that probe the state, then a fresh batch"""
     for c in divergent_cases[:10]:
         t = c.split()
         if len(t) < 2:
@@ -645,6 +727,8 @@ def search(rng, divergent_cases):
         for n in range(1, len(toks) + 1):
             i = toks[n - 1][1:].split(".")[0] if len(toks[n - 1]) > 1 else "0"
             yield " ".join([t[0], ",".join(toks[:n] + ["e" + i, "t" + i])] + t[2:])
+    for c in divergent_cases[:6]:
+        yield from _continuations(c)
     r2 = random.Random(rng.getrandbits(32))
     yield from generate_C08(r2, "quick")
     yield from generate_C14(r2, "quick")
